@@ -135,6 +135,13 @@ func setupUniverse(timeT types.Type) {
 	}
 	types.Universe.Insert(types.NewFunc(token.NoPos, nil, "implies__", types.NewSignatureType(nil, nil, nil, types.NewTuple(v("a", bt), v("b", bt)), types.NewTuple(v("", bt)), false)))
 	types.Universe.Insert(types.NewFunc(token.NoPos, nil, "isfinite", types.NewSignatureType(nil, nil, nil, types.NewTuple(v("x", types.Typ[types.Float64])), types.NewTuple(v("", bt)), false)))
+	for _, n := range []string{"lastSealAD", "lastSealPT", "lastSealKey", "lastOpenAD", "lastOpenNonce", "lastOpenCT", "lastOpenKey"} {
+		types.Universe.Insert(types.NewFunc(token.NoPos, nil, n, types.NewSignatureType(nil, nil, nil, nil, types.NewTuple(v("", types.NewSlice(types.Typ[types.Uint8]))), false)))
+	}
+	for _, n := range []string{"sealed", "opened"} {
+		types.Universe.Insert(types.NewFunc(token.NoPos, nil, n, types.NewSignatureType(nil, nil, nil, nil, types.NewTuple(v("", bt)), false)))
+	}
+	types.Universe.Insert(types.NewFunc(token.NoPos, nil, "iter", types.NewSignatureType(nil, nil, nil, nil, types.NewTuple(v("", it)), false)))
 	for _, n := range []string{"floordiv", "floormod"} {
 		types.Universe.Insert(types.NewFunc(token.NoPos, nil, n, types.NewSignatureType(nil, nil, nil, types.NewTuple(v("a", mathintType), v("b", mathintType)), types.NewTuple(v("", mathintType)), false)))
 	}
